@@ -28,9 +28,18 @@ SLOW = ("parse_yaml", "harvester")  # 1-3 ms per construction: enumerated over a
 
 
 def bounds(tier):
+    """Instance caps per class: full space, space for the slow modes, for all-mode-combination triples
+    (fast / with slow modes), for harvest().  Installed schemas (45 fields, 30 ms per harvester run) get
+    smaller caps than the generated classes."""
     if tier == "quick":
-        return dict(cap=16, cap_slow=6, cap_mixed=3, cap_slow_mixed=0, cap_harvest=5)
-    return dict(cap=45, cap_slow=10, cap_mixed=6, cap_slow_mixed=3, cap_harvest=10)
+        return {
+            "generated": dict(cap=14, cap_slow=6, cap_mixed=3, cap_slow_mixed=0, cap_harvest=5),
+            "installed": dict(cap=12, cap_slow=3, cap_mixed=2, cap_slow_mixed=0, cap_harvest=3),
+        }
+    return {
+        "generated": dict(cap=45, cap_slow=10, cap_mixed=6, cap_slow_mixed=3, cap_harvest=10),
+        "installed": dict(cap=27, cap_slow=5, cap_mixed=4, cap_slow_mixed=2, cap_harvest=4),
+    }
 
 
 # -------------------------------------------------------------------------------------------
@@ -134,14 +143,14 @@ def _violation(case, finding, info):
 
 
 def run(tier, seed):
-    B = bounds(tier)
+    BB = bounds(tier)
     C.worker_init(tier, seed)
-    classes = M.TOP_CLASSES + M.EXTRA_CLASSES
     t0 = time.time()
     table = {}
     jobs = []  # (function name, item, tag)
     for F in M.FACTORIES:
-        for cid in classes:
+        B = BB["installed" if F == "installed" else "generated"]
+        for cid in M.class_ids(F):
             sp = C.space(F, cid, B["cap"])
             n = len(sp)
             n_s = len(C.space(F, cid, B["cap_slow"]))
@@ -150,7 +159,7 @@ def run(tier, seed):
                 "instances": n,
                 "complete_instances": sum(M.is_complete(cid, s) for s in sp),
                 "corpus_sizes": {f: len(vs) for f, vs in C.space_corpora(F, cid, B["cap"])},
-                "instances_slow_modes": n_s if F == "schema" else 0,
+                "instances_slow_modes": n_s if F in M.SCHEMA_LIKE else 0,
                 "instances_mixed_modes": n_m,
             }
             for xi in range(n):
@@ -162,7 +171,7 @@ def run(tier, seed):
                         jobs.append(("work_triples", (F, cid, B["cap"], m, xi, B["cap"]), "triples"))
             for xi in range(n_m):
                 jobs.append(("work_triples_mixed", (F, cid, B["cap_mixed"], xi, "fast", B["cap"]), "triples-mixed"))
-            if F == "schema":
+            if F in M.SCHEMA_LIKE:
                 for xi in range(n_s):
                     jobs.append(("work_pairs_modes", (F, cid, B["cap_slow"], xi, "slow"), "pairs"))
                     for m in SLOW:
@@ -174,7 +183,7 @@ def run(tier, seed):
                 nh = len([s for s in C.space(F, cid, B["cap_harvest"]) if M.applicable("harvester", F, cid, s)])
                 table[f"{F}/{cid}"]["instances_harvest"] = nh
                 for xi in range(nh):
-                    jobs.append(("work_harvest", (cid, B["cap_harvest"], xi), "harvest"))
+                    jobs.append(("work_harvest", (F, cid, B["cap_harvest"], xi), "harvest"))
 
     counters = {}
     prelim = {}
@@ -228,7 +237,7 @@ def run(tier, seed):
         )
 
     distinct = sum(bin(b).count("1") for b in bitmaps.values())
-    samples = _samples(B)
+    samples = _samples(BB["generated"])
     cov = {
         "evaluations": tot["cases"],
         "merges_executed": tot["merges"],
@@ -236,14 +245,14 @@ def run(tier, seed):
         "outcomes": {"value": tot["ok"], "raised": tot["err"]},
         "by_family": counters,
         "classes": table,
-        "bounds": B,
+        "bounds": BB,
         "modes": {F: M.modes_for(F) for F in M.FACTORIES},
         "preliminary_failure_classes": len(prelim),
         "exhaustive": not hangs,
         "samples": samples,
         "rule": (
-            "classes: Prim(Optional int/bool/str/float), Scal(int,str), Coll(List[int], Set[int], Optional[List], "
-            "Optional[Set]), Nest(M, Optional[M], List[M]), Rec(recursive), Chain(Optional[M] + Optional[List[M]] holding "
+            "classes: Prim(Optional int/bool/str/float), Scal(int,str), Scal2(bool,float), Lst(List[int], Optional[List[int]]), "
+            "Sets(Set[int], Optional[Set[int]]), Nest(M, Optional[M], List[M]), Rec(recursive), Chain(Optional[M] + Optional[List[M]] holding "
             "M<-M2<-M3), Sib(Optional[M] holding M, M2 and the unrelated sibling MX; associativity not claimed there), "
             "each as plain BaseModel (PartialFactory) and as MetadataSchema (Schema.Partial). Per class the full cross "
             "product of the per-field corpora in `classes[..].corpus_sizes` (priority ordered: missing, falsy, truthy...; "
@@ -286,9 +295,9 @@ def _samples(B):
         specs = [sp[len(sp) // 3], sp[len(sp) // 2], sp[-1]]
         m = next(m for m in rot if all(M.applicable(m, F, cid, s) for s in specs))
         out.append({"kind": "triple", "factory": F, "cls": cid, "specs": specs, "modes": [m, m, m], "ow": False})
-    sp = [s for s in C.space("schema", "Coll", B["cap_harvest"]) if M.applicable("harvester", "schema", "Coll", s)]
+    sp = [s for s in C.space("schema", "Lst", B["cap_harvest"]) if M.applicable("harvester", "schema", "Lst", s)]
     out.append(
-        {"kind": "harvest", "factory": "schema", "cls": "Coll", "specs": [sp[1], sp[-1], sp[2]], "modes": ["file-harvester-file"], "ow": False}
+        {"kind": "harvest", "factory": "schema", "cls": "Lst", "specs": [sp[1], sp[-1], sp[2]], "modes": ["file-harvester-file"], "ow": False}
     )
     return out
 
